@@ -68,6 +68,8 @@ FApply(e) == LET s == Get(e.i) IN
 
 FSnapshot(e) == LET s == Get(e.i) IN
     /\ s.kind = "F"
+    \* C04: a snapshot is installed only from the leader of the node's own term (sterm: term of the stream)
+    /\ (s.term = -1 \/ e.sterm = -1 \/ e.sterm = s.term)
     /\ inst' = Put(e.i, [s EXCEPT !.commit = e.commit, !.lastapp = e.commit, !.term = e.term, !.snap = TRUE])
 
 \* ---- leader controller (leader_controller.go)
